@@ -411,7 +411,7 @@ func (fx *Fx) evalCond(st *State, e ast.Expr) []condBranch {
 			return outs
 		}
 	case *ast.CallExpr:
-		if fx.isMultiCall(x) {
+		if fx.isMultiCall(x) || fx.closureOf(st, x) != nil {
 			var outs []condBranch
 			for _, r := range fx.evalCallMulti(st, x) {
 				if r.kind != kNormal {
